@@ -117,56 +117,77 @@ Proof. vm_compute. repeat split. Qed.
 Print Assumptions C07_ipc_nonvacuous.
 
 (* ---- connect ---- *)
+(* [cinit pfix tcp o]: pfix = false is the current code; pfix = true the code with
+   notes/C07_fix_pipe_connect_ealready.diff (a pipe connect issued while one is pending is
+   refused with UV_EALREADY: synchronously by uv_pipe_connect2, through the callback by the
+   void uv_pipe_connect).  tcp handles behave the same in both. *)
+
 (* tcp: after close + one more iteration every request accepted with 0 was called back
    exactly once *)
 Theorem C07_connect_once :
-  forall o os beh,
-  let '(x, tr) := crun (cinit true o) (os ++ [CClose; CRun]) beh in
+  forall pfix o os beh,
+  let '(x, tr) := crun (cinit pfix true o) (os ++ [CClose; CRun]) beh in
   c_closed (cs x) = true /\ forall r, In (CRet r 0) tr -> cnt (cbs tr) r = 1%nat.
 Proof.
-  intros o os beh. pose proof (connect_once true o os beh) as H.
-  destruct (crun (cinit true o) (os ++ [CClose; CRun]) beh) as [x tr].
-  destruct H as (D & _ & L & H). split; [exact D|]. intros r Hr. apply H; [exact Hr|].
-  rewrite (L eq_refl). intros [].
+  intros pfix o os beh. pose proof (connect_once pfix true o os beh) as H.
+  destruct (crun (cinit pfix true o) (os ++ [CClose; CRun]) beh) as [x tr].
+  destruct H as (D & _ & _ & L & H). split; [exact D|]. intros r Hr. apply H; [exact Hr|].
+  rewrite (L (or_introl eq_refl)). intros [].
 Qed.
 Print Assumptions C07_connect_once.
 
-(* pipes: the same for every request that was not overwritten by a later
-   uv_pipe_connect issued while it was pending; at any moment each accepted request is
-   called back once, pending, or overwritten *)
-Theorem C07_connect_once_pipe_partial :
+(* pipes and tcp alike, repaired variant: the full statement *)
+Theorem C07_connect_once_pipe_fixed :
   forall tcp o os beh,
-  (let '(x, tr) := crun (cinit tcp o) (os ++ [CClose; CRun]) beh in
-   c_closed (cs x) = true /\ c_req (cs x) = None /\ (tcp = true -> losts tr = []) /\
-   forall r, In (CRet r 0) tr -> ~ In r (losts tr) -> cnt (cbs tr) r = 1%nat) /\
-  (let '(x, tr) := crun (cinit tcp o) os beh in
-   forall r, In (CRet r 0) tr -> (cnt (cbs tr) r + cnt (losts tr) r + pend (cs x) r = 1)%nat).
+  let '(x, tr) := crun (cinit true tcp o) (os ++ [CClose; CRun]) beh in
+  c_closed (cs x) = true /\ c_req (cs x) = None /\ cchain x = [] /\
+  forall r, In (CRet r 0) tr -> cnt (cbs tr) r = 1%nat.
 Proof.
-  intros tcp o os beh. split; [exact (connect_once tcp o os beh)|].
-  pose proof (connect_counting tcp o os beh) as H. destruct (crun (cinit tcp o) os beh) as [x tr].
+  intros tcp o os beh. pose proof (connect_once true tcp o os beh) as H.
+  destruct (crun (cinit true tcp o) (os ++ [CClose; CRun]) beh) as [x tr].
+  destruct H as (D & R & Ch & L & H). split; [exact D|]. split; [exact R|]. split; [exact Ch|].
+  intros r Hr. apply H; [exact Hr|]. rewrite (L (or_intror eq_refl)). intros [].
+Qed.
+Print Assumptions C07_connect_once_pipe_fixed.
+
+(* current pipe code: the same for every request that was not overwritten by a later
+   uv_pipe_connect issued while it was pending; at any moment each accepted request is
+   called back once, still owed its callback, or overwritten *)
+Theorem C07_connect_once_pipe_partial :
+  forall pfix tcp o os beh,
+  (let '(x, tr) := crun (cinit pfix tcp o) (os ++ [CClose; CRun]) beh in
+   c_closed (cs x) = true /\ c_req (cs x) = None /\ cchain x = [] /\
+   (tcp = true \/ pfix = true -> losts tr = []) /\
+   forall r, In (CRet r 0) tr -> ~ In r (losts tr) -> cnt (cbs tr) r = 1%nat) /\
+  (let '(x, tr) := crun (cinit pfix tcp o) os beh in
+   forall r, In (CRet r 0) tr -> (cnt (cbs tr) r + cnt (losts tr) r + pend x r = 1)%nat).
+Proof.
+  intros pfix tcp o os beh. split; [exact (connect_once pfix tcp o os beh)|].
+  pose proof (connect_counting pfix tcp o os beh) as H. destruct (crun (cinit pfix tcp o) os beh) as [x tr].
   apply H.
 Qed.
 Print Assumptions C07_connect_once_pipe_partial.
 
 Theorem C07_connect_once_pipe_refuted :
   exists o os beh r,
-    let '(x, tr) := crun (cinit false o) (os ++ [CClose; CRun]) beh in
+    let '(x, tr) := crun (cinit false false o) (os ++ [CClose; CRun]) beh in
     In (CRet r 0) tr /\ c_closed (cs x) = true /\ cnt (cbs tr) r = 0%nat.
 Proof. exact connect_once_refuted. Qed.
 Print Assumptions C07_connect_once_pipe_refuted.
 
 (* status 0 iff the oracle says established: a callback with status 0 comes from an
-   SO_ERROR answer 0 (never from a delayed error or a cancellation), delayed errors are
-   non-zero, cancellations are UV_ECANCELED; and an SO_ERROR answer 0 completes with 0 *)
+   SO_ERROR answer 0 (never from a delayed error, a cancellation or a refusal), delayed
+   errors are non-zero, cancellations are UV_ECANCELED, refusals UV_EALREADY; and an SO_ERROR
+   answer 0 completes with 0 *)
 Theorem C07_connect_status :
-  (forall tcp o os beh, Forall status_ok (snd (crun (cinit tcp o) os beh))) /\
-  (forall tcp o os beh r src, In (CCb r 0 src) (snd (crun (cinit tcp o) os beh)) -> src = SrcSo) /\
+  (forall pfix tcp o os beh, Forall status_ok (snd (crun (cinit pfix tcp o) os beh))) /\
+  (forall pfix tcp o os beh r src, In (CCb r 0 src) (snd (crun (cinit pfix tcp o) os beh)) -> src = SrcSo) /\
   (forall x beh r rest, c_req (cs x) = Some r -> c_delayed (cs x) = 0 -> o_so (co x) = 0 :: rest ->
      exists e, snd (stream_connect x beh) = CCb r 0 SrcSo :: e).
 Proof.
   split; [|split].
-  - intros tcp o os beh. pose proof (connect_counting tcp o os beh) as H.
-    destruct (crun (cinit tcp o) os beh). apply H.
+  - intros pfix tcp o os beh. pose proof (connect_counting pfix tcp o os beh) as H.
+    destruct (crun (cinit pfix tcp o) os beh). apply H.
   - exact status_zero_from_oracle.
   - exact established_status_zero.
 Qed.
@@ -180,11 +201,20 @@ Proof. exact close_cancels. Qed.
 Print Assumptions C07_connect_cancel.
 
 Example C07_connect_nonvacuous :
-  let '(x, tr) := crun (cinit true (mkO [0] [-115; -115] [-111; -115] [true; true; true]))
+  let '(x, tr) := crun (cinit false true (mkO [0] [-115; -115] [-111; -115] [true; true; true]))
                        ([CTcp; CRun; CTcp; CTcp; CRun] ++ [CClose; CRun]) (fun _ => []) in
   tr = [CRet 0 0; CCb 0 (-111) SrcSo; CRet 1 0; CRet 2 UV_EALREADY; CCb 1 UV_ECANCELED SrcCancel; CClosed].
 Proof. vm_compute. reflexivity. Qed.
 Print Assumptions C07_connect_nonvacuous.
+
+(* the repaired pipe code on the script that loses request 0 today: uv_pipe_connect2 is
+   refused synchronously, the void uv_pipe_connect is told UV_EALREADY after request 0 *)
+Example C07_connect_pipe_fixed_nonvacuous :
+  let '(x, tr) := crun (cinit true false (mkO [0] [0] [0] [true]))
+                       ([CPipe2 0 40 false; CPipe2 0 40 false; CPipe 40; CRun] ++ [CClose; CRun]) (fun _ => []) in
+  tr = [CRet 0 0; CRet 1 UV_EALREADY; CRet 2 0; CCb 0 0 SrcSo; CCb 2 UV_EALREADY SrcRejected; CClosed].
+Proof. vm_compute. reflexivity. Qed.
+Print Assumptions C07_connect_pipe_fixed_nonvacuous.
 
 (* ---- send handles ---- *)
 (* uv_write2 and uv_try_write2 (current code, since /repo c5357ca) validate the send handle:
